@@ -68,6 +68,44 @@ package value
 //@       && (1 <= j && j <= s.y.bins-2 ==> s.y.start+float64(j-1)*s.y.size <= y && y < s.y.start+float64(j)*s.y.size) \
 //@       && (forall p in 0..len(s.bins) :: forall q in 0..s.y.bins :: (p != i || q != j) ==> s.bins[p][q] == old(s.bins[p][q]))
 
+// MustFloat on the two numeric kinds (what binning lists hold); the error of the producing call is handed through
+//@ func MustFloat
+//@   property C20
+//@   safety C20
+//@   requires err != nil || v != nil
+//@   ensures[error-kept] err != nil ==> result1 != nil
+//@   ensures[float] err == nil && typeis(v, Float) ==> result1 == nil && result0 == float64(unbox(v, Float))
+//@   ensures[int] err == nil && typeis(v, Int) ==> result1 == nil && result0 == float64(int(unbox(v, Int)))
+//@   assigns nothing
+
+// collectBinning (additivity): the 1d accumulator adds entry j of the part's value list to its cell j - every entry,
+// whatever its sign - and touches no other cell; the first part allocates the cells (zero) and is copied into them
+//@ func (c *collectBinning1d) add
+//@   option evaluates
+//@   property C20
+//@   safety C20
+//@   requires c != nil && validStack(st) && m.m != nil
+//@   requires mhas(m.m, "values") ==> mget(m.m, "values") != nil
+//@   ensures[cells-kept] result == nil && old(c.vals) != nil ==> len(c.vals) == old(len(c.vals)) && ref(c.vals) == old(ref(c.vals))
+//@   loop 1 invariant 0 <= rangeidx && rangeidx <= len(entries) && len(c.vals) == len(entries)
+//@   loop 1 invariant[same-cells] old(c.vals) != nil ==> ref(c.vals) == old(ref(c.vals)) && off(c.vals) == old(off(c.vals)) && len(c.vals) == old(len(c.vals))
+//@   loop 1 invariant[part-added] old(c.vals) != nil ==> (forall j in 0..rangeidx :: typeis(entries[j], Float) ==> c.vals[j] == old(c.vals[j])+float64(unbox(entries[j], Float)))
+//@   loop 1 invariant[rest-untouched] old(c.vals) != nil ==> (forall j in rangeidx..len(c.vals) :: c.vals[j] == old(c.vals[j]))
+//@   loop 1 invariant[first-part-copied] old(c.vals) == nil ==> fresh(c.vals) && (forall j in 0..rangeidx :: typeis(entries[j], Float) ==> c.vals[j] == float64(unbox(entries[j], Float))) && (forall j in rangeidx..len(c.vals) :: c.vals[j] == 0.0)
+
+// binning: the axis handed to newBinning has a non-negative number of interior bins and a positive bin size
+//@ func Binning
+//@   option evaluates
+//@   property C20
+//@   safety C20
+//@   requires l != nil && validStack(st) && st.size >= 6
+
+//@ func Binning2d
+//@   option evaluates
+//@   property C20
+//@   safety C20
+//@   requires l != nil && validStack(st) && st.size >= 10
+
 // ---------------------------------------------------------------- the evaluation frame (S4; C09-C11 verify it, others use it)
 //
 // Anything that evaluates program values (ToString, Eval, ToSlice, iteration, closures) may write only: the
@@ -86,6 +124,7 @@ package value
 //@ interface-contract Value.ToList
 //@   option impl-check=frame
 //@   ensures[list-like] result1 == listLike(self)
+//@   ensures[list-nonnil] result1 ==> result0 != nil
 //@   assigns nothing
 //@ interface-contract Value.ToMap
 //@   option impl-check=frame
